@@ -66,7 +66,7 @@ class Mapper(object):
     def __init__(self, tcols, tlays, columns, layers, scale_xy, scale_z):
         self.tcols, self.tlays, self.columns, self.layers = tcols, tlays, columns, layers
         self.sxy, self.sz = scale_xy, scale_z
-        self._c, self._l = {}, {}
+        self._c, self._l, self._i = {}, {}, {}
 
     def near_columns(self, ci):
         if ci not in self._c:
@@ -79,7 +79,10 @@ class Mapper(object):
         return self._l[li]
 
     def images(self, li, ci):
-        return combine(self.near_columns(ci), self.near_layers(li), self.columns, self.layers)
+        key = (li, ci)
+        if key not in self._i:
+            self._i[key] = combine(self.near_columns(ci), self.near_layers(li), self.columns, self.layers)
+        return self._i[key]
 
 
 def mean_vectors(vectors):
